@@ -187,6 +187,101 @@ def r_affine(ctx: Ctx, model, tr):
            nontrivial_key=("alpha", "curve"))
 
 
+def r_alpha_reference(ctx: Ctx, model):
+    """alpha-s against itself returns the reference area: the wrapper hands alpha_s_raw the area of the *reference* isotherm computed by
+    the method the caller named ('BET' -> area_BET, 'langmuir' -> area_langmuir, a number as it is), in any letter case"""
+    import sympy as _sp
+    from ..absint import Obj
+    from ..domain import make_interp as _mk
+    from ..libsum import Vec as _Vec, install_vec as _iv
+    ctx.rule("L-affine (reference area): alpha_s passes alpha_s_raw area_BET(reference)['area'] for reference_area='BET', "
+             "area_langmuir(reference)['area'] for 'langmuir', a numeric value unchanged (wrapper interpreted with recording stubs)")
+    fi = model.func(f"{CH}.alphas_plots.alpha_s")
+    Sy = lambda nm: _sp.Symbol(nm, positive=True)
+    for given, want in (("BET", "A_bet"), ("bet", "A_bet"), ("langmuir", "A_lang"), ("Langmuir", "A_lang"), ("LANGMUIR", "A_lang")):
+        I = _mk(model)
+        _iv(I)
+        I.sympy_mode = True
+        cap = {}
+        bi = model.cls("pygaps.core.baseisotherm.BaseIsotherm")
+
+        def mkiso(tag):
+            return Obj(cls=bi, kind="IsoA", label=tag, attrs={"_adsorbate": "ADS", "adsorbate": "ADS", "pressure_unit": "bar", "pressure_mode": "absolute",
+                                                             "temperature": Sy("T"), "_temperature": Sy("T"), "temperature_unit": "K", "material_unit": "g",
+                                                             "units": {}})
+        ref, smp = mkiso("reference"), mkiso("sample")
+        I.overrides[f"{CH}.area_bet.area_BET"] = lambda I, fi_, env, n: (cap.setdefault("bet_on", []).append(env.get("isotherm")), {"area": Sy("A_bet")})[1]
+        I.overrides[f"{CH}.area_lang.area_langmuir"] = lambda I, fi_, env, n: (cap.setdefault("lang_on", []).append(env.get("isotherm")), {"area": Sy("A_lang")})[1]
+        I.overrides[f"{CH}.alphas_plots.alpha_s_raw"] = lambda I, fi_, env, n: (cap.update({"area": env.get("reference_area")}), ([], _Vec([Sy("c0")])))[1]
+        I.overrides["pygaps.utilities.pygaps_utilities.get_iso_loading_and_pressure_ordered"] = lambda I, fi_, env, n: (_Vec([Sy("p0")]), _Vec([Sy("n0")]))
+        ads = Obj(kind="AdsA", label="ads")
+        I.libmeth[("AdsA", "molar_mass")] = lambda I, v, a, k, n: Sy("M")
+        I.libmeth[("AdsA", "liquid_density")] = lambda I, v, a, k, n: Sy("rho")
+        I.overrides["pygaps.core.adsorbate.Adsorbate.find"] = lambda I, fi_, env, n: ads
+        I.libmeth[("IsoA", "loading_at")] = lambda I, v, a, k, n: _Vec([Sy("nr0")]) if isinstance(a[0], _Vec) else Sy("alpha_ref")
+        outs = I.explore(lambda I: (cap.clear(), I.call_func(fi, [smp, ref], {"reference_area": given}, None), dict(cap))[2])
+        oks = [o for o in outs if o.kind == "ok"]
+        got = oks[0].value.get("area") if oks else None
+        on = (oks[0].value.get("bet_on") or []) + (oks[0].value.get("lang_on") or []) if oks else []
+        ok = bool(oks) and got == Sy(want) and all(x is ref for x in on) and len(on) == 1
+        ctx.ob(ok, Finding("C14.L-affine", fi.where, f"alpha_s|reference-area|{given.lower()}",
+                           f"alpha_s(reference_area={given!r}) hands alpha_s_raw the reference area {got!r} (area routine run on "
+                           f"{[getattr(x, 'label', x) for x in on]}); required {want} of the reference isotherm"
+                           + ("" if oks else f" (outcomes {[repr(o)[:70] for o in outs[:2]]})")),
+               nontrivial_key=("alpha", "refarea", given))
+
+
+def r_plot_limits(ctx: Ctx, model):
+    """t-plot / alpha-s with manual limits: the fitted points are exactly those whose *thickness* (alpha value) lies strictly inside the
+    user's limits - interpreted on concrete five-point curves whose pressures / loadings are numerically different from the thickness"""
+    import numpy as _np
+    import sympy as _sp
+    from ..absint import Obj
+    from ..domain import make_interp as _mk
+    from ..ndsym import install_nd, to_np
+    ctx.rule("L-window (t / alpha-s): with t_limits the section handed to the parameter routine is {i : t_limits[0] < curve_i < t_limits[1]} "
+             "of the thickness / alpha curve (concrete curves, array algebra on symbolic elements)")
+    R = _sp.Rational
+    curve = [R(3, 10), R(1, 2), R(7, 10), R(9, 10), R(11, 10)]
+    pressure = _np.array([R(1, 100), R(2, 100), R(5, 100), R(8, 100), R(95, 100)], dtype=object)
+    loading = _np.array([R(10), R(20), R(30), R(40), R(50)], dtype=object)
+    cases = [((R(2, 5), R(1)), [1, 2, 3]), ((R(0), R(3, 5)), [0, 1]), ((R(1, 2), R(9, 10)), [2]), ((R(1), R(2)), [4])]
+    for which in ("t", "alpha"):
+        for lims, want in cases:
+            I = _mk(model)
+            install_nd(I)
+            cap = {}
+
+            def params(I, fi_, env, n, cap=cap):
+                cap["section"], cap["curve"] = env.get("section"), env.get("thickness_curve", env.get("alpha_curve"))
+                return {"slope": _sp.Integer(1)}
+            if which == "t":
+                fi = model.func(f"{CH}.t_plots.t_plot_raw")
+                I.overrides[f"{CH}.t_plots.t_plot_parameters"] = params
+                tm = Obj(kind="ThicknessFn", label="thickness_model")
+                I.libmeth[("ThicknessFn", "__call__")] = lambda I, v, a, k, n: _np.array(list(curve), dtype=object)
+                args = [loading, pressure, tm, _sp.Symbol("rho", positive=True), _sp.Symbol("M", positive=True)]
+            else:
+                fi = model.func(f"{CH}.alphas_plots.alpha_s_raw")
+                I.overrides[f"{CH}.alphas_plots.alpha_s_plot_parameters"] = params
+                args = [loading, _np.array([c * 2 for c in curve], dtype=object), R(2), _sp.Symbol("A", positive=True), _sp.Symbol("rho", positive=True),
+                        _sp.Symbol("M", positive=True)]
+            outs = I.explore(lambda I: (cap.clear(), I.call_func(fi, list(args), {"t_limits": tuple(lims)}, None), dict(cap))[2])
+            got = None
+            if len(outs) == 1 and outs[0].kind == "ok" and outs[0].value.get("section") is not None:
+                sec = to_np(I, outs[0].value["section"])
+                try:
+                    got = [int(x) for x in (sec.tolist() if isinstance(sec, _np.ndarray) else list(sec))]
+                except (TypeError, ValueError):
+                    got = repr(sec)
+            else:
+                got = [repr(o)[:90] for o in outs[:2]]
+            ctx.ob(got == want, Finding("C14.L-window", fi.where, f"{which}-plot|manual-limits|{lims[0]}..{lims[1]}",
+                                        f"{fi.name}(t_limits=({lims[0]}, {lims[1]})) on the curve {[str(c) for c in curve]} fits the points {got}; required {want}: "
+                                        "exactly the points whose thickness / alpha value lies inside the user's limits"),
+                   nontrivial_key=("plot-limits", which, str(lims)))
+
+
 # ---- L-window --------------------------------------------------------------------------------------------------
 
 def explore(I, thunk):
@@ -296,6 +391,8 @@ def run(ctx: Ctx):
     ctx.assume("scipy.stats.linregress on exactly affine data returns the generating slope and intercept")
     ctx.assume("numpy.searchsorted(p, x) is the number of points below x on an increasing grid")
     r_affine(ctx, model, tr)
+    r_alpha_reference(ctx, model)
+    r_plot_limits(ctx, model)
     r_window(ctx, model)
     # module-level state: only the declared write-once caches, guarded and keyed by the full argument (shared with C04 R-module)
     from ..effects import Effects
